@@ -978,6 +978,31 @@ def run_program(env, cfg, prog, record=True, plain=False, fault=None):
                     sp_handles.pop().rollback()
                     refs.clear()
                     mark('sprollback')
+                elif kind == 'sp_fail':
+                    # ['sp_fail', newkey, notekey]: inside the innermost open savepoint a new Article and a Note that
+                    # refers to it under an EXISTING note key are added and flushed: the Article is inserted (and its
+                    # operation recorded), then the Note's INSERT fails. The application rolls the savepoint back (what
+                    # `with session.begin_nested():` does for it when the exception leaves the block) and goes on with the transaction.
+                    if not sp_handles:
+                        outcomes.append('skip')
+                        continue
+                    a_ = classes[0](id=op[1], a=1)
+                    n_ = classes[3](id=op[2], a=0)
+                    n_.article = a_
+                    sp_ = sp_handles.pop()
+                    try:
+                        with sp_:                     # the savepoint as context manager, as in the documentation
+                            s.add_all([a_, n_])
+                            s.flush()
+                        outcomes.append('flushed')
+                        mark('sprelease')
+                    except sa.exc.IntegrityError:
+                        outcomes.append('flush-failed')
+                        if rec:
+                            rec.cur = None
+                        refs.clear()
+                        mark('sprollback')
+                    continue
                 elif kind == 'sp_release':
                     if not sp_handles:
                         outcomes.append('skip')
